@@ -168,3 +168,40 @@ def spectral_density(cx, ftype, Nt, grid):
         wj = float(wax[z0 + j])
         boltz = numpy.exp(-wj / (kB_int * T))
         cx.prove_eq("kms[%d]" % j, C[z0 - j], boltz * C[z0 + j], tol=1e-6)
+
+
+@harness("C06", "redfield_tensor_population_rates",
+         quick=[dict(N=3)], thorough=[dict(N=3), dict(N=4)],
+         functions=[F_RT + ":RedfieldRelaxationTensor._implementation",
+                    F_RT + ":RedfieldRelaxationTensor._guts_Cmplx_Splines",
+                    F_RT + ":RedfieldRelaxationTensor._convert_operators_2_tensor", F_RT + ":_loopit"],
+         bound="ground + 2 (thorough 3) sites with site-projector bath operators, Hamiltonian given by its "
+               "eigen-decomposition: the tensor's eigenbasis population-transfer element R[a,a,b,b] equals "
+               "sum_n (S_na S_nb)^2 * 2 Re c_n(w_ab) with c_n the half-Fourier (spline) integral the code computed, "
+               "i.e. the same |c_na|^2 |c_nb|^2 weights as the rate matrix; rates into/out of the ground state vanish",
+         out="that 2 Re c_n(w) equals (1+coth) J_n(w) numerically")
+def redfield_tensor_population_rates(cx, N):
+    from quantarhei.qm import RedfieldRelaxationTensor
+    nb = N - 1
+    ham, sbi, time = build_sbi(cx, N, nb, Nt=4)
+    H, w, S = spectral_hamiltonian(cx, N, block=[[0], list(range(1, N))])
+    ham._data = H.copy()
+    sbi.KK = _projector_K(cx, N, nb)
+    RTt = RedfieldRelaxationTensor(ham, sbi, as_operators=False)
+    RTo = RedfieldRelaxationTensor(ham, sbi, as_operators=True)
+    Km, Lm = RTo._Km, RTo._Lm
+    R = RTt._data
+    if not cx.sym:
+        S = numpy.linalg.eigh(numpy.asarray(H, dtype=float))[1]
+    for a in range(N):
+        for b in range(N):
+            if a == b:
+                continue
+            ref = 0
+            for n in range(nb):
+                cx.prove_eq("projector_weight[%d,%d,%d]" % (n, a, b), Km[n, a, b] * Km[n, a, b],
+                            (S[n + 1, a] * S[n + 1, b]) ** 2, tol=1e-9)
+                ref = ref + 2 * Km[n, a, b] * numpy.real(Lm[n, a, b])
+            cx.prove_eq("population_rate[%d,%d]" % (a, b), R[a, a, b, b], ref, tol=1e-9)
+            if a == 0 or b == 0:
+                cx.prove_eq("ground_isolated[%d,%d]" % (a, b), R[a, a, b, b], 0, tol=1e-12)
